@@ -65,6 +65,7 @@ func genC10(t *rapid.T) c10Case {
 		}
 		c.Profiles = append(c.Profiles, text)
 		for gi, g := range graphs {
+			genScale(t, g, 16)
 			doc := g.JSONLD(genLDOpts(t, len(g.Nodes)))
 			if rapid.Bool().Draw(t, "lexical") {
 				// source maps with additional locations, file names unique per document
